@@ -182,8 +182,10 @@ func elemsHeap(sortStr string) (string, string) {
 func cellHeap(sortStr string) (string, string) {
 	return "Cell_" + sortName(sortStr), arraySort(SInt, sortStr)
 }
-func mapHeaps(ks, vs string) (dom, domSort, val, valSort string) {
-	n := sortName(ks) + "_" + sortName(vs)
+// mapHeaps: heap arrays of one Go map type (distinct map types never share arrays).
+func mapHeaps(w *World, mt *types.Map) (dom, domSort, val, valSort string) {
+	ks, vs := w.sortOf(mt.Key()), w.sortOf(mt.Elem())
+	n := mangle(w.canonName(mt.Key())) + "_" + mangle(w.canonName(mt.Elem()))
 	return "MapDom_" + n, arraySort(SInt, arraySort(ks, SBool)), "MapVal_" + n, arraySort(SInt, arraySort(ks, vs))
 }
 
